@@ -449,7 +449,7 @@ impl Check for SessCc {
                     let r = catch_op(|| compare_with_oracle(&mut s, &mut ctx, &mut orng, &mut out, c01, c02, k));
                     match r {
                         Err(p) => {
-                            if p.msg.starts_with("harness:") || p.loc.contains("/verif/sim/") {
+                            if p.msg.starts_with("harness:") || p.is_harness() {
                                 panic!("harness panic: {} at {}", p.msg, p.loc);
                             }
                             // a panic inside eq/find during queries is C08's business
